@@ -290,14 +290,17 @@ fn exec_batch<S: System>(
     seen: Option<&KeyMap>,
 ) -> Vec<Option<Rec>> {
     let mut out: Vec<Option<Rec>> = (0..n).map(|_| None).collect();
-    let nofork = std::env::var("MHV_NOFORK").is_ok();
+    // Narrow levels (deep, thin graphs such as byte-by-byte write schedules) are executed in
+    // the parent: forking a large process thousands of times costs far more than the work.
+    // Engines whose observations depend on the descriptor table always run in workers.
+    let nofork = std::env::var("MHV_NOFORK").is_ok() || (!sys.needs_clean_fds() && n < 192);
     if nofork {
         for i in 0..n {
             out[i] = Some(run_item(sys, i as u32, &path_of(i)));
         }
         return out;
     }
-    let k = workers.min(n.max(1));
+    let k = workers.min(n / 24 + 1).min(n.max(1));
     // pending[w] = item indices assigned to worker w that still have to be executed
     let mut pending: Vec<Vec<usize>> = (0..k).map(|w| (w..n).step_by(k).collect()).collect();
     loop {
